@@ -374,6 +374,24 @@ def oracle(ctx):
             chk('norm6', lambda: (base.norm(s6)), lambda: (math.sqrt(math.fsum(x * x for x in s6))), np.linalg.norm(s6), s6)
             chk('norm1', lambda: (base.norm([a])), lambda: (abs(a)), abs(a), [a])
             chk('normsq', lambda: (base.normsq(u)), lambda: (math.fsum(x * x for x in u)), nu * nu, u)
+            if i % 10 == 0:
+                # argument forms (27fbc71, 961176d: norm / normsq / cross go through getvector): list, tuple, row, column
+                forms = [lambda x: list(x), lambda x: tuple(x), lambda x: np.asarray(x).reshape(1, -1), lambda x: np.asarray(x).reshape(-1, 1)]
+                for k_, fm in enumerate(forms):
+                    chk('norm:argument-form', lambda: (base.norm(fm(u))), lambda: (nu), nu, np.r_[k_, u])
+                    chk('normsq:argument-form', lambda: (base.normsq(fm(s6))), lambda: (math.fsum(x * x for x in s6)), float(s6 @ s6), np.r_[k_, s6])
+                    chk('cross:argument-form', lambda: (base.cross(fm(u), forms[(k_ + 1) % 4](v))), lambda: (np.cross(u, v)), nu * nv, np.r_[k_, u, v])
+                for bad in (s6, u[:2]):
+                    ctx.case(('cross-rejects', len(bad), tuple(u)))
+                    ctx.count('oracle:cross:rejects-non-3-vector')
+                    try:
+                        r_ = base.cross(bad, v)
+                        ctx.fail('oracle:cross:accepts-non-3-vector', f"cross of a {len(bad)}-vector with a 3-vector returns {np.asarray(r_).tolist()} instead of raising ValueError",
+                                 {'u_hex': hexl(bad), 'v_hex': hexl(v)})
+                    except ValueError:
+                        pass
+                    except Exception as ex:  # noqa
+                        ctx.fail(f'oracle:cross:non-3-vector:raises:{exc_kind(ex)}', f"cross of a {len(bad)}-vector raises {type(ex).__name__}: {ex}", {'u_hex': hexl(bad)})
             cv = base.colvec(u)
             chk('colvec', lambda: (cv), lambda: (np.asarray(u).reshape(3, 1)), nu, u)
 
